@@ -21,7 +21,18 @@ for line in sys.stdin:
     try:
         from sasmodels import core, kerneldll
         from sasmodels.direct_model import call_kernel
-        if cmd["cmd"] == "svload":
+        if cmd["cmd"] == "iqload":
+            from sasmodels import direct_model
+            val = direct_model.Iq(modelpath, np.array([0.5]), scale=1.0, background=0.0)
+            info = core.load_model_info(modelpath)
+
+            class model(object):          # what is reported about the model behind the convenience call
+                dtype = np.dtype("d")
+
+                class info(object):
+                    parameters = info.parameters
+            kernel = None
+        elif cmd["cmd"] == "svload":
             from sasmodels import sasview_model
             inst = sasview_model.load_custom_model(modelpath)()
             inst.setParam("scale", 1.0)
